@@ -110,13 +110,17 @@ def k_closure(N=3, outcomes=4):
     return harness
 
 
-def h_resubmit(shapes=("chain3", "fork3"), bss=(2,), flagsets=None, incomplete=True, second=False, max_steps=60):
+def h_resubmit(shapes=("chain3", "fork3"), bss=(2,), flagsets=None, incomplete=True, second=False, max_steps=60, fault_kinds=None,
+               lock_mode="M1"):
+    """second: the completed resubmission is resubmitted once more (exit codes of the first rerun are solver-chosen), same oracles.
+    fault_kinds: one injected error (EDQUOT at a write-open, Timeout at a lock acquisition, sbatch failing on every retry) at a
+    solver-chosen effect point of resubmit-jobs; oracle = C13's last clause (results not erased without a way forward)."""
     flagsets = flagsets or [[], ["--no-failed"], ["--successful"], ["--no-missing", "--successful"]]
 
     def harness(ex):
         from world.world import Hang
 
-        w = setup_world(ex)
+        w = setup_world(ex, lock_mode=lock_mode)
         try:
             _run(ex, w)
         except Hang as e:
@@ -236,9 +240,20 @@ def h_resubmit(shapes=("chain3", "fork3"), bss=(2,), flagsets=None, incomplete=T
             return
         from jade.result import ResultsSummary
 
+        rounds = 2 if second else 1
+        for rnd in range(rounds):
+            ok = _resubmission(ex, w, out, nm, blk, N, rnd, rnd == rounds - 1)
+            if not ok:
+                return
+        ex.reached()
+
+    def _resubmission(ex, w, out, nm, blk, N, rnd, last):
+        from jade.result import ResultsSummary
+
+        sfx = "" if rnd == 0 else "_r%d" % rnd
         first = {r.name: r for r in ResultsSummary(out).list_results()}
         kinds = {n: (classify(first[n]) if n in first else "missing") for n in nm}
-        fl = flagsets[ex.choice("flags", len(flagsets))]
+        fl = flagsets[ex.choice("flags" + sfx, len(flagsets))]
         failed = "--no-failed" not in fl
         missing = "--no-missing" not in fl
         successful = "--successful" in fl
@@ -246,8 +261,10 @@ def h_resubmit(shapes=("chain3", "fork3"), bss=(2,), flagsets=None, incomplete=T
                or (successful and kinds[n] == "successful")}
         clo = {nm[i] for i in _closure(N, blk, sel)}
         mark = w.seq
+        if fault_kinds:
+            return _faulty(ex, w, out, nm, first, fl, clo, mark)
         r = w.user(["jade", "resubmit-jobs", out] + fl)
-        crashed = [e for e in w.events("crash") if e["argv"][:2] == ["jade", "resubmit-jobs"]]
+        crashed = [e for e in w.events("crash") if e["argv"][:2] == ["jade", "resubmit-jobs"] and e["seq"] > mark]
         if crashed:
             # a failure of the command must not leave the results erased with no way forward
             ex.check(False, "C13: resubmit-jobs crashed", error=[e["error"] for e in crashed])
@@ -257,31 +274,49 @@ def h_resubmit(shapes=("chain3", "fork3"), bss=(2,), flagsets=None, incomplete=T
             ex.check(c is not None and (rows >= set(first) or c.config.submitter is None),
                      "C13: failed resubmit-jobs left results erased and no way forward (submitter role never released)",
                      rows=sorted(rows), submitter=getattr(getattr(c, "config", None), "submitter", "?"))
-            return
+            return False
         if not clo:
             ex.check(not [s for s in w.events("sbatch") if s["seq"] > mark], "C13: nothing selected but a batch was submitted")
         rc2 = {}
 
         def rc_second(name):
             if name not in rc2:
-                rc2[name] = 0
+                rc2[name] = 0 if last else ex.choice("rc2_" + name, 2)
             return rc2[name]
 
-        st = run_to_quiescence(ex, w, out, rc_second, "b")
-        ex.check(st == "complete", "C13: resubmission did not complete", state=st)
+        st = run_to_quiescence(ex, w, out, rc_second, "b" + sfx)
+        ex.check(st == "complete", "C13: resubmission did not complete", state=st, round=rnd)
         if st != "complete":
-            return
+            return False
         launches = [l for l in w.events("launch") if l["seq"] > mark]
         ran = sorted(l["job"] for l in launches)
-        ex.check(ran == sorted(clo), "C13: jobs rerun differ from the selected jobs plus their transitive dependents", ran=ran,
-                 want=sorted(clo), flags=fl, kinds=kinds)
+        # a rerun job that is flagged and whose rerun blocker failed again is canceled without a launch
+        expect = sorted(clo)
+        if not last:
+            cfgd = json.load(open(os.path.join(out, "config.json")))
+            flagged = {j["name"] for j in cfgd["jobs"] if j.get("cancel_on_blocking_job_failure")}
+            bad = set()
+            for i in range(N):  # names are listed in an order compatible with the shapes used here (blockers first)
+                n = nm[i]
+                if n not in clo:
+                    continue
+                if n in flagged and any(nm[b] in bad for b in blk.get(i, [])):
+                    bad.add(n)
+                    continue
+                if rc_second(n) != 0:
+                    bad.add(n)
+            expect = sorted(n for n in clo if not (n in flagged and any(nm[b] in bad for b in blk.get(nm.index(n), []))))
+        ex.check(ran == expect, "C13: jobs rerun differ from the selected jobs plus their transitive dependents", ran=ran,
+                 want=expect, flags=fl, kinds=kinds, round=rnd)
         for l in launches:
             i = nm.index(l["job"])
             for b in blk.get(i, []):
                 if nm[b] in clo:
-                    rerun_rows = [x for x in l["results_on_disk"] if x == nm[b]]
-                    ex.check(nm[b] in [e["job"] for e in w.events("exit") if mark < e["seq"] < l["seq"]],
-                             "C13: resubmitted job started before its rerun blocker finished again", job=l["job"], blocker=nm[b])
+                    exited = nm[b] in [e["job"] for e in w.events("exit") if mark < e["seq"] < l["seq"]]
+                    # (a rerun blocker that was canceled again has no exit; its new canceled row is on disk at the launch)
+                    canceled_again = nm[b] not in ran and nm[b] in l["results_on_disk"]
+                    ex.check(exited or canceled_again, "C13: resubmitted job started before its rerun blocker finished again",
+                             job=l["job"], blocker=nm[b])
         final = {}
         for res in ResultsSummary(out).list_results():
             ex.check(res.name not in final, "C13: two result entries for one job after resubmission", job=res.name)
@@ -292,14 +327,146 @@ def h_resubmit(shapes=("chain3", "fork3"), bss=(2,), flagsets=None, incomplete=T
         rows = w.result_names(out)
         ex.check(len(rows) == len(set(rows)), "C13: results file holds two rows for one job after resubmission", rows=sorted(rows))
         ex.check(sorted(list(final) + data["missing_jobs"]) == sorted(nm), "C13: results do not hold one entry per job again",
-                 results=sorted(final), missing=data["missing_jobs"])
+                 results=sorted(final), missing=data["missing_jobs"], round=rnd)
         for n in nm:
             if n not in clo and n in first:
                 # same name, return code, status and times (the property does not speak about the HPC job id column)
                 ex.check(n in final and tuple(final[n])[:5] == tuple(first[n])[:5], "C13: result of a job that was not resubmitted changed",
-                         job=n, before=tuple(first[n]), after=tuple(final.get(n, ())))
-            if n in clo:
+                         job=n, before=tuple(first[n]), after=tuple(final.get(n, ())), round=rnd)
+            if n in clo and last:
                 ex.check(n in final and final[n].is_successful(), "C13: rerun job has no successful result although it exited 0", job=n)
+        c = cluster_status(out)
+        if not data["missing_jobs"]:
+            ex.check(c is not None and c.config.completed_jobs == N and c.config.submitted_jobs == N,
+                     "C09/C13: counters after a completed resubmission are not total/total", round=rnd,
+                     completed=getattr(getattr(c, "config", None), "completed_jobs", None))
+        return True
+
+    def _faulty(ex, w, out, nm, first, fl, clo, mark):
+        """One injected error inside resubmit-jobs.  C13's last clause, read literally: the failed command must not leave
+        the submission with results erased (rows of the first run pruned from the result files) AND no way forward.  A way
+        forward = the documented commands (try-submit-jobs while incomplete, resubmit-jobs once complete) lead to a complete
+        submission with one successful entry per job.  Not fault positions: the final role release itself (no implementation can
+        release the role when the release fails) and the submission round (C11's subject; fail-stop refusal accepted there)."""
+        import errno
+        import sys
+        import filelock
+        from jade.result import ResultsSummary
+
+        kind = fault_kinds[ex.choice("fault", len(fault_kinds))]
+        st = dict(injected=False, idx=0, script=None)
+        STATE_FILES = ("cluster_config.json", "config_version.txt", "job_status.json", "job_status_version.txt")
+        w.unlock_observer = None  # C09's consistency clauses are stated for fault-free runs
+
+        def in_cmd(w_):
+            return w_.cur is not None and "resubmit-jobs" in w_.cur.name
+
+        def releasing_role():
+            """The final role release, or inside the submission round (JobSubmitter.submit_jobs): an error raised inside a
+            round is C11's subject, where fail-stop refusal of later rounds is the accepted behaviour."""
+            f = sys._getframe(2)
+            while f is not None:
+                if f.f_code.co_name in ("demote_from_submitter", "_demote_from_submitter"):
+                    return True
+                if f.f_code.co_name == "submit_jobs" and f.f_code.co_filename.endswith("job_submitter.py"):
+                    return True
+                f = f.f_back
+            return False
+
+        def hook(w_, k, detail):
+            if st["injected"] or not in_cmd(w_):
+                return
+            if (kind, k) not in (("edquot", "write_open"), ("lock_timeout", "lock_acquire")):
+                return
+            if releasing_role():
+                return
+            if kind == "edquot" and os.path.basename(str(detail.get("path"))) in STATE_FILES:
+                # JADE's designed answer to an error while the shared state files are being written is fail-stop
+                # ("state of the cluster is unknown", deliberate deadlock / version mismatch); not a way-forward case.
+                if not st.get("noted"):
+                    st["noted"] = True
+                    ex.note("state_file_write_positions_excluded")
+                return
+            fire_ = ex.flag("fault_at_%d" % st["idx"])
+            st["idx"] += 1
+            if not fire_:
+                return
+            where, f = [], sys._getframe(1)
+            while f is not None:
+                if "/jade/" in f.f_code.co_filename:
+                    where.append(f.f_code.co_name)
+                f = f.f_back
+            st.update(injected=True, effect=k, detail=os.path.basename(str(detail.get("path"))), where=where[:6])
+            if kind == "edquot":
+                raise OSError(errno.EDQUOT, "Disk quota exceeded", detail.get("path"))
+            raise filelock.Timeout(detail.get("path"))
+
+        def sbatch_policy(w_, script):
+            if st["script"] is None and not st["injected"] and in_cmd(w_):
+                if ex.flag("sbatch_fails_%d" % st["idx"]):
+                    st.update(injected=True, script=script, effect="sbatch", detail=os.path.basename(script))
+                st["idx"] += 1
+            return st["script"] == script and in_cmd(w_)
+
+        w.track_files = True
+        if kind == "sbatch":
+            w.sbatch_policy = sbatch_policy
+        else:
+            w.effect_hook = hook
+        r = w.user(["jade", "resubmit-jobs", out] + fl)
+        w.effect_hook = None
+        w.sbatch_policy = None
+        if not st["injected"]:
+            return False  # fault-free resubmissions are the subject of the other obligations
+        info = dict(fault=kind, at=st.get("effect"), detail=st.get("detail"), where=st.get("where"), flags=fl, cmd_rc=r.rc)
+        ex.note("faults_injected")
+        ex.note("fault@%s/%s/%s" % (kind, st.get("detail"), ">".join(reversed((st.get("where") or [])[:3]))))
+        pruned = sorted(set(first) - set(w.result_names(out)))
+
+        def recover():
+            if os.path.exists(os.path.join(out, "cluster_config.json.lock")):
+                w.now += 10  # under M2 a stale marker is broken by the next acquisition
+            for attempt in range(5):
+                state = run_to_quiescence(ex, w, out, lambda n: 0, "f%d_" % attempt)
+                if state != "complete":
+                    return False, "submission cannot be completed: " + state
+                res = {r_.name: r_ for r_ in ResultsSummary(out).list_results()}
+                if attempt > 0 and all(n in res and res[n].is_successful() for n in nm):
+                    return True, ""
+                w.now += 10
+                # attempt 0: the user repeats the request that failed; later: the default flags (failed + missing)
+                r2 = w.user(["jade", "resubmit-jobs", out] + (fl if attempt == 0 else []))
+                if r2.rc != 0:
+                    return False, "a new resubmit-jobs fails: rc=%s %s" % (r2.rc, "".join(r2.err)[-200:])
+            return False, "still incomplete results after 5 resubmissions"
+
+        forward, why = recover()
+        if os.environ.get("VERIF_DUMP") and not forward:
+            for e in w.log[-40:]:
+                print("   LOG", {k: (str(v)[:300]) for k, v in e.items() if k not in ("t", "host")}, file=sys.stderr)
+        if not forward:
+            ex.note("no_way_forward_but_nothing_erased" if not pruned else "no_way_forward")
+        if pruned:
+            ex.note("faults_after_rows_were_pruned")
+        if pruned and not forward:
+            ex.note("NWF@%s/%s/%s :: %s" % (kind, st.get("detail"), ">".join(reversed((st.get("where") or [])[:3])), why[:60]))
+        ex.check(forward or not pruned, "C13: failed resubmit-jobs left results erased and no way forward", erased=pruned, why=why, **info)
+        if forward:
+            final = {}
+            for r_ in ResultsSummary(out).list_results():
+                ex.check(r_.name not in final, "C13: two result entries for one job after a failed and repeated resubmission",
+                         job=r_.name, **info)
+                final[r_.name] = r_
+            rerun = {l["job"] for l in w.events("launch") if l["seq"] > mark}
+            for n in nm:
+                if n not in rerun and n in first and first[n].is_successful():
+                    ex.check(n in final and tuple(final[n])[:5] == tuple(first[n])[:5],
+                             "C13: result of a job that was never rerun was lost or changed by a failed resubmit-jobs", job=n,
+                             before=tuple(first[n]), after=tuple(final.get(n, ())), **info)
+            rows = w.result_names(out)
+            ex.check(len(rows) == len(set(rows)), "C13: results file holds two rows for one job after a failed resubmission",
+                     rows=sorted(rows), **info)
         ex.reached()
+        return False
 
     return harness
